@@ -44,6 +44,11 @@ SOURCES.append(("bytesin", "bt = (" + ", ".join("b'k%d'" % i for i in range(260)
                 "def meth(m):\n    return m in {b'GET', b'HEAD', b'\\xff'} or m in {'get', 'head'} or m in (b'PUT', b'PATCH')\n" if PY3 else
                 "bt = (" + ", ".join("'k%d'" % i for i in range(260)) + ")\nst = ('GET', u'text', ('in', ('ner',)))\n"
                 "def meth(m):\n    return m in ('GET', 'HEAD', '\\xff') or m in (u'get', u'head')\n"))
+# every augmented assignment operator (the extended operand formatters build format strings from the operator text: '%=' needs care) and
+# calls whose callee was made on the spot: zero-argument call of a fresh lambda, of a fresh generator expression's function
+SOURCES.append(("augcalls", "def au(a, b):\n    a += b; a -= b; a *= b; a /= b; a //= b; a %= b; a **= b\n    a <<= b; a >>= b; a &= b; a |= b; a ^= b\n    c = a % b\n    return a, c\n"
+                + ("def am(a, b):\n    a @= b\n    return a @ b\n" if V >= (3, 5) else "")
+                + "x = (lambda: 1)()\ny = (lambda q: q)(2)\nz = (lambda *r, **k: r)(1, k=2)\ndef gen_type():\n    return type((lambda: (yield))())\n"))
 if not PY3:
     SOURCES.append(("py2zoo", "def old(a, b, tb):\n    print >>a, b,\n    print a\n    exec 'x = 1' in {}\n    y = `a`\n    z = a <> b\n    try:\n        raise ValueError, b, tb\n    except ValueError, e:\n        raise e\n    return 0777, 10L, ur'x'\n"))
 if V >= (3, 6):
